@@ -269,4 +269,805 @@ theorem matchWith_none_of_prefix {tm : Str → Option (Str × Str)} {l : Str} (h
     matchWith tm l = none := by
   unfold matchWith; rw [h]
 
+/-! ## splitlines / join / split -/
+
+theorem ne_cr_of_notSep {c : Char} (h : notSep c = true) : c ≠ '\r' := by
+  intro hc; subst hc; simp [notSep, isSep_cr] at h
+
+theorem splitlinesGo_line {l t : Str} (hl : l.all notSep = true) :
+    splitlinesGo false (l ++ '\n' :: t) = l :: splitlinesGo false t := by
+  induction l with
+  | nil =>
+    have : ('\n' : Char) ≠ '\r' := by decide
+    simp [splitlinesGo, isSep_nl, this]
+  | cons c cs ih =>
+    simp only [List.all_cons, Bool.and_eq_true] at hl
+    have h1 := ne_cr_of_notSep hl.1
+    have h2 : isSep c = false := by simpa [notSep] using hl.1
+    simp [splitlinesGo, h1, h2, ih hl.2]
+
+theorem splitlinesGo_last {l : Str} (hne : l ≠ []) (hl : l.all notSep = true) :
+    splitlinesGo false l = [l] := by
+  induction l with
+  | nil => simp at hne
+  | cons c cs ih =>
+    simp only [List.all_cons, Bool.and_eq_true] at hl
+    have h1 := ne_cr_of_notSep hl.1
+    have h2 : isSep c = false := by simpa [notSep] using hl.1
+    cases cs with
+    | nil => simp [splitlinesGo, h1, h2]
+    | cons d ds =>
+      have := ih (by simp) hl.2
+      simp [splitlinesGo, h1, h2] at this ⊢
+      rw [this]
+
+theorem splitlinesGo_line_end {l : Str} (hl : l.all notSep = true) :
+    splitlinesGo false (l ++ ['\n']) = [l] := by
+  rw [splitlinesGo_line hl]; rfl
+
+/-- splitting the joined lines gives the lines back: no separator inside a line, last line non-empty -/
+theorem splitlines_joinNL {ls : List Str} {last : Str} (hall : ∀ l ∈ ls, l.all notSep = true)
+    (hlast : ls.getLast? = some last) (hne : last ≠ []) : splitlines (joinNL ls) = ls := by
+  unfold splitlines
+  induction ls with
+  | nil => simp at hlast
+  | cons l rest ih =>
+    cases rest with
+    | nil =>
+      simp at hlast; subst hlast
+      simp only [joinNL]
+      exact splitlinesGo_last hne (hall l (by simp))
+    | cons m rest' =>
+      simp only [joinNL]
+      rw [splitlinesGo_line (hall l (by simp))]
+      rw [ih (fun x hx => hall x (by simp [hx])) (by simpa using hlast)]
+
+/-- the same with the interpreter's final newline (the last line may then be anything) -/
+theorem splitlines_joinNL_nl {ls : List Str} (hall : ∀ l ∈ ls, l.all notSep = true) (hne : ls ≠ []) :
+    splitlines (joinNL ls ++ ['\n']) = ls := by
+  unfold splitlines
+  induction ls with
+  | nil => simp at hne
+  | cons l rest ih =>
+    cases rest with
+    | nil =>
+      simp only [joinNL]
+      exact splitlinesGo_line_end (hall l (by simp))
+    | cons m rest' =>
+      simp only [joinNL, List.cons_append, List.append_assoc]
+      rw [splitlinesGo_line (hall l (by simp))]
+      have := ih (fun x hx => hall x (by simp [hx])) (by simp)
+      rw [this]
+
+theorem splitNL_ne_nil (s : Str) : splitNL s ≠ [] := by
+  cases s with
+  | nil => simp [splitNL]
+  | cons c cs =>
+    simp only [splitNL]
+    split
+    · simp
+    · split <;> simp
+
+theorem joinNL_cons_of_ne {l : Str} {rest : List Str} (h : rest ≠ []) :
+    joinNL (l :: rest) = l ++ '\n' :: joinNL rest := by
+  cases rest with
+  | nil => simp at h
+  | cons m r => rfl
+
+theorem joinNL_splitNL (s : Str) : joinNL (splitNL s) = s := by
+  induction s with
+  | nil => rfl
+  | cons c cs ih =>
+    simp only [splitNL]
+    split
+    · rename_i hc; subst hc
+      rw [joinNL_cons_of_ne (splitNL_ne_nil cs), ih]; rfl
+    · split
+      · rename_i h; exact absurd h (splitNL_ne_nil cs)
+      · rename_i l ls h
+        rw [h] at ih
+        cases ls with
+        | nil => simp only [joinNL] at ih ⊢; rw [ih]
+        | cons m r => simp only [joinNL] at ih ⊢; rw [← ih]; rfl
+
+theorem joinNL_append_splitNL (a : List Str) (x : Str) : joinNL (a ++ splitNL x) = joinNL (a ++ [x]) := by
+  induction a with
+  | nil => simp [joinNL_splitNL, joinNL]
+  | cons l rest ih =>
+    rw [List.cons_append, List.cons_append, joinNL_cons_of_ne (by simp [splitNL_ne_nil]),
+      joinNL_cons_of_ne (by simp), ih]
+
+/-- lines of `split('\n')` contain no `\n`; with `msgCharOK` characters they contain no separator at all -/
+theorem splitNL_lines_notSep {s : Str} (h : s.all msgCharOK = true) : ∀ l ∈ splitNL s, l.all notSep = true := by
+  induction s with
+  | nil => simp [splitNL]
+  | cons c cs ih =>
+    simp only [List.all_cons, Bool.and_eq_true] at h
+    have ih := ih h.2
+    simp only [splitNL]
+    split
+    · intro l hl
+      simp only [List.mem_cons] at hl
+      rcases hl with rfl | hl
+      · rfl
+      · exact ih l hl
+    · rename_i hc
+      have hcs : notSep c = true := by
+        have := h.1; simp only [msgCharOK, Bool.or_eq_true, decide_eq_true_eq] at this
+        rcases this with h' | h'
+        · exact h'
+        · exact absurd h' hc
+      split
+      · intro l hl; simp at hl; subst hl; simp [hcs]
+      · rename_i l ls hsp
+        intro x hx
+        simp only [List.mem_cons] at hx
+        rcases hx with rfl | hx
+        · have := ih l (by rw [hsp]; simp)
+          simp [hcs, this]
+        · exact ih x (by rw [hsp]; simp [hx])
+
+theorem splitNL_getLast_ne_nil {s : Str} (hne : s ≠ []) (hl : s.getLast? ≠ some '\n') :
+    ∃ last, (splitNL s).getLast? = some last ∧ last ≠ [] := by
+  induction s with
+  | nil => simp at hne
+  | cons c cs ih =>
+    cases cs with
+    | nil =>
+      have hc : c ≠ '\n' := by simpa using hl
+      refine ⟨[c], ?_, by simp⟩
+      simp [splitNL, hc]
+    | cons d ds =>
+      have hl' : (d :: ds).getLast? ≠ some '\n' := by simpa [List.getLast?_cons_cons] using hl
+      obtain ⟨last, h1, h2⟩ := ih (by simp) hl'
+      by_cases hc : c = '\n'
+      · refine ⟨last, ?_, h2⟩
+        have e : splitNL (c :: d :: ds) = [] :: splitNL (d :: ds) := by rw [splitNL]; simp only [hc, ↓reduceIte]
+        rw [e, List.getLast?_cons, h1]; rfl
+      · cases hsp : splitNL (d :: ds) with
+        | nil => exact absurd hsp (splitNL_ne_nil _)
+        | cons l ls =>
+          have e : splitNL (c :: d :: ds) = (c :: l) :: ls := by rw [splitNL]; simp only [hc, ↓reduceIte, hsp]
+          rw [e]
+          rw [hsp] at h1
+          cases ls with
+          | nil => exact ⟨c :: l, rfl, by simp⟩
+          | cons m r => exact ⟨last, by simpa [List.getLast?_cons_cons] using h1, h2⟩
+
+theorem splitNL_append_noNL {a : Str} (t : Str) (ha : ∀ c ∈ a, c ≠ '\n') :
+    splitNL (a ++ t) = (a ++ (splitNL t).head (splitNL_ne_nil t)) :: (splitNL t).tail := by
+  induction a with
+  | nil => simp
+  | cons c cs ih =>
+    have hc : c ≠ '\n' := ha c (by simp)
+    have ih := ih (fun d hd => ha d (by simp [hd]))
+    simp only [List.cons_append, splitNL, hc, ↓reduceIte]
+    rw [ih]
+
+/-! ## partition(': '), trailers -/
+
+theorem partitionCS_noSpace {a : Str} (m : Str) (ha : a.all notSpace = true) :
+    partitionCS (a ++ (colonSp ++ m)) = (a, some m) := by
+  induction a with
+  | nil => simp [colonSp, partitionCS]
+  | cons c cs ih =>
+    simp only [List.all_cons, Bool.and_eq_true] at ha
+    have ih := ih ha.2
+    have hhead : (cs ++ (colonSp ++ m)).head? ≠ some ' ' := by
+      cases cs with
+      | nil => simp [colonSp]
+      | cons d ds =>
+        simp only [List.all_cons, Bool.and_eq_true] at ha
+        intro h
+        simp only [List.cons_append, List.head?_cons, Option.some.injEq] at h
+        have := ha.2.1; rw [h] at this; simp [notSpace, isSpace_space] at this
+    rw [List.cons_append, partitionCS, if_neg (fun h => hhead h.2), ih]
+
+theorem partitionCS_none {a : Str} (ha : a.all notSpace = true) : partitionCS a = (a, none) := by
+  induction a with
+  | nil => rfl
+  | cons c cs ih =>
+    simp only [List.all_cons, Bool.and_eq_true] at ha
+    have ih := ih ha.2
+    have hhead : cs.head? ≠ some ' ' := by
+      cases cs with
+      | nil => simp
+      | cons d ds =>
+        simp only [List.all_cons, Bool.and_eq_true] at ha
+        intro h
+        simp only [List.head?_cons, Option.some.injEq] at h
+        have := ha.2.1; rw [h] at this; simp [notSpace, isSpace_space] at this
+    rw [partitionCS, if_neg (fun h => hhead h.2), ih]
+
+theorem excParts_excLine {etype msg : Str} (h : etype.all notSpace = true) :
+    excParts (splitNL (excLine etype msg)) = (etype, msg) := by
+  unfold excParts
+  rw [joinNL_splitNL]
+  unfold excLine
+  split
+  · rename_i hm; subst hm; rw [partitionCS_none h]; rfl
+  · rw [partitionCS_noSpace msg h]; rfl
+
+theorem dropTrailers_of_last {ls : List Str} {last : Str} (h : ls.getLast? = some last)
+    (ht : isTrailer last = false) : dropTrailers ls = ls := by
+  unfold dropTrailers
+  have : ls.reverse = last :: ls.reverse.tail := by
+    have h2 : ls.reverse.head? = some last := by rw [List.head?_reverse]; exact h
+    cases hr : ls.reverse with
+    | nil => rw [hr] at h2; simp at h2
+    | cons x xs => rw [hr] at h2; simp at h2; subst h2; rfl
+  rw [this, dropTrailersRev]
+  simp only [ht, Bool.false_eq_true, ↓reduceIte]
+  rw [← this, List.reverse_reverse]
+
+/-! ## the line that ends the frame loop (first line of the exception part) -/
+
+theorem dropPrefix_litA_none {a t : Str} (hne : a ≠ []) (ha : a.all notSpace = true)
+    (ht : t = [] ∨ t.head? = some ':') : dropPrefix? litA (a ++ t) = none := by
+  cases hd : dropPrefix? litA (a ++ t) with
+  | none => rfl
+  | some r =>
+    exfalso
+    have h := dropPrefix?_sound hd
+    have hsp : ∀ c ∈ a, c ≠ ' ' := by
+      intro c hc hcs
+      have := List.all_eq_true.mp ha c hc
+      subst hcs
+      simp [notSpace, isSpace_space] at this
+    have hl : litA = ['F', 'i', 'l', 'e', ' ', '"'] := rfl
+    rw [hl] at h
+    match a, hne, hsp with
+    | [a1], _, _ =>
+      rcases ht with rfl | ht
+      · simp at h
+      · cases t with
+        | nil => simp at ht
+        | cons t1 ts => simp at ht; subst ht; simp at h
+    | [a1, a2], _, _ =>
+      rcases ht with rfl | ht
+      · simp at h
+      · cases t with
+        | nil => simp at ht
+        | cons t1 ts => simp at ht; subst ht; simp at h
+    | [a1, a2, a3], _, _ =>
+      rcases ht with rfl | ht
+      · simp at h
+      · cases t with
+        | nil => simp at ht
+        | cons t1 ts => simp at ht; subst ht; simp at h
+    | [a1, a2, a3, a4], _, _ =>
+      rcases ht with rfl | ht
+      · simp at h
+      · cases t with
+        | nil => simp at ht
+        | cons t1 ts => simp at ht; subst ht; simp at h
+    | a1 :: a2 :: a3 :: a4 :: a5 :: as, _, hsp =>
+      simp at h
+      exact hsp a5 (by simp) h.2.2.2.2.1
+
+/-- a line `a ++ h`: `a` a non-empty run of non-space characters, not all `~`/`^`, and `h` empty or starting with `:` -/
+structure ExcHead (l : Str) : Prop where
+  notUnderline : isUnderline l = false
+  noFrame : matchFrame (strip l) = none
+  noIndent : startsWithSpace l = false
+
+theorem excHead_of {a h : Str} (hne : a ≠ []) (ha : a.all notSpace = true)
+    (hu : a.any (fun c => !isUnderlineChar c) = true) (hh : h = [] ∨ h.head? = some ':') : ExcHead (a ++ h) := by
+  have hfirst : firstNotSpace a = true := by
+    cases a with
+    | nil => simp at hne
+    | cons c cs => simp only [List.all_cons, Bool.and_eq_true] at ha; simpa [firstNotSpace] using ha.1
+  have hlast : lastNotSpace a = true := by
+    unfold lastNotSpace
+    cases hr : a.reverse with
+    | nil => simp at hr; exact absurd hr hne
+    | cons c cs =>
+      have : c ∈ a := by rw [← List.mem_reverse, hr]; simp
+      simpa [firstNotSpace] using List.all_eq_true.mp ha c this
+  refine ⟨?_, ?_, ?_⟩
+  · simp only [isUnderline, List.all_append, Bool.and_eq_false_imp]
+    intro hall
+    exfalso
+    simp only [List.any_eq_true] at hu
+    obtain ⟨c, hc, hcu⟩ := hu
+    have := List.all_eq_true.mp hall c hc
+    simp [this] at hcu
+  · unfold strip
+    rw [lstrip_of_first (firstNotSpace_append hfirst), rstrip_append_left hlast]
+    apply matchWith_none_of_prefix
+    apply dropPrefix_litA_none hne ha
+    rcases hh with rfl | hh
+    · left; simp [rstrip]
+    · by_cases hr : rstrip h = []
+      · left; exact hr
+      · right
+        obtain ⟨t, ht⟩ := rstrip_prefix h
+        cases hrs : rstrip h with
+        | nil => exact absurd hrs hr
+        | cons x xs => rw [hrs] at ht; rw [← ht] at hh; simpa using hh
+  · cases a with
+    | nil => simp at hne
+    | cons c cs =>
+      simp only [List.all_cons, Bool.and_eq_true] at ha
+      simp only [List.cons_append, startsWithSpace]
+      split
+      · rename_i heq
+        simp only [List.cons.injEq] at heq
+        have := ha.1; rw [heq.1] at this; simp [notSpace, isSpace_space] at this
+      · rfl
+
+theorem splitNL_head_of_ne_nl {c : Char} (r : Str) (hc : c ≠ '\n') :
+    ((splitNL (c :: r)).head (splitNL_ne_nil _)).head? = some c := by
+  have : ∃ l ls, splitNL (c :: r) = (c :: l) :: ls := by
+    rw [splitNL]; simp only [hc, ↓reduceIte]
+    split
+    · exact ⟨[], [], rfl⟩
+    · rename_i l ls _; exact ⟨l, ls, rfl⟩
+  obtain ⟨l, ls, h⟩ := this
+  simp [h]
+
+/-- the first line of the rendered exception part ends the frame loop -/
+theorem excHead_excLine {etype msg : Str} (hne : etype ≠ []) (ha : etype.all notSpace = true)
+    (hu : etype.any (fun c => !isUnderlineChar c) = true) :
+    ∃ e1 E, splitNL (excLine etype msg) = e1 :: E ∧ ExcHead e1 := by
+  have hnl : ∀ c ∈ etype, c ≠ '\n' := by
+    intro c hc hcn
+    have := List.all_eq_true.mp ha c hc
+    subst hcn
+    simp [notSpace, isSpace_nl] at this
+  unfold excLine
+  split
+  · have := splitNL_append_noNL [] hnl
+    rw [List.append_nil] at this
+    exact ⟨_, _, this, excHead_of hne ha hu (Or.inl (by simp [splitNL]))⟩
+  · rw [splitNL_append_noNL _ hnl]
+    refine ⟨_, _, rfl, excHead_of hne ha hu (Or.inr ?_)⟩
+    exact splitNL_head_of_ne_nl _ (by decide)
+
+/-! ## the frame loop on rendered frames -/
+
+theorem parseLoop_cons_some {re : Str → Option Frame} {l : Str} {rest : List Str} {fd : Frame}
+    (h : re (strip l) = some fd) :
+    parseLoop re (l :: rest) =
+      ({ fd with src := (takeSource re rest).1 } :: (parseLoop re (skipUnderline (takeSource re rest).2)).1,
+       (parseLoop re (skipUnderline (takeSource re rest).2)).2) := by
+  rw [parseLoop]; simp only [h]
+
+theorem parseLoop_cons_none {re : Str → Option Frame} {l : Str} {rest : List Str}
+    (h : re (strip l) = none) : parseLoop re (l :: rest) = ([], l :: rest) := by
+  rw [parseLoop]; simp only [h]
+
+/-- a line after which a frame has no source line and no marker line: not indented or itself a frame
+    line, and not made of `~ ^` and spaces only -/
+structure StopLine (l : Str) : Prop where
+  notUnderline : isUnderline l = false
+  boundary : (matchFrame (strip l)).isSome = true ∨ startsWithSpace l = false
+
+theorem StopLine.of_excHead {l : Str} (h : ExcHead l) : StopLine l := ⟨h.notUnderline, Or.inr h.noIndent⟩
+
+theorem frameLine_eq (f : Frame) :
+    frameLine f = ' ' :: ' ' :: (litA ++ (f.file ++ (litB ++ (f.lineno ++ (litC ++ f.func))))) := by
+  simp [frameLine, ind2, List.append_assoc]
+
+theorem WFframe_parts {f : Frame} (h : WFframe f = true) :
+    f.file ≠ [] ∧ f.file.all notSep = true ∧ f.lineno ≠ [] ∧ f.lineno.all isDigit = true ∧
+    f.func.all notSep = true ∧ lastNotSpace f.func = true ∧ noTail f.func = true ∧ WFsrc f.src = true := by
+  simp only [WFframe, Bool.and_eq_true, bne_iff_ne, ne_eq] at h
+  obtain ⟨⟨⟨⟨⟨⟨⟨h1, h2⟩, h3⟩, h4⟩, h5⟩, h6⟩, h7⟩, h8⟩ := h
+  exact ⟨h1, h2, h3, h4, h5, h6, h7, h8⟩
+
+theorem strip_frameLine {f : Frame} (h : WFframe f = true) :
+    strip (frameLine f) = litA ++ (f.file ++ (litB ++ (f.lineno ++ (litC ++ f.func)))) := by
+  obtain ⟨_, _, _, _, _, h6, _, _⟩ := WFframe_parts h
+  rw [frameLine_eq]
+  unfold strip
+  rw [lstrip_space_cons, lstrip_space_cons, lstrip_of_first (by rfl)]
+  apply rstrip_of_last
+  rw [← List.append_assoc, ← List.append_assoc, ← List.append_assoc, ← List.append_assoc]
+  exact lastNotSpace_append h6
+
+theorem matchFrame_frameLine {f : Frame} (h : WFframe f = true) :
+    matchFrame (strip (frameLine f)) = some ⟨f.file, f.lineno, f.func, []⟩ := by
+  rw [strip_frameLine h]
+  obtain ⟨h1, _, h3, h4, _, h6, h7, _⟩ := WFframe_parts h
+  exact matchFrame_render h1 h3 h4 (lastNotSpace_ne_nil h6) h7
+
+theorem isUnderline_frameLine (f : Frame) : isUnderline (frameLine f) = false := by
+  rw [frameLine_eq]
+  simp [isUnderline, litA, isUnderlineChar]
+
+theorem stopLine_frameLine {f : Frame} (h : WFframe f = true) : StopLine (frameLine f) :=
+  ⟨isUnderline_frameLine f, Or.inl (by rw [matchFrame_frameLine h]; rfl)⟩
+
+theorem takeSource_stop {nl : Str} {L : List Str} (h : StopLine nl) :
+    takeSource matchFrame (nl :: L) = ([], nl :: L) := by
+  unfold takeSource
+  rcases h.boundary with hb | hb
+  · simp [hb]
+  · simp [hb]
+
+theorem skipUnderline_stop {nl : Str} {L : List Str} (h : StopLine nl) : skipUnderline (nl :: L) = nl :: L := by
+  unfold skipUnderline
+  simp [h.notUnderline]
+
+theorem WFsrc_parts {s : Str} (h : WFsrc s = true) (hne : s ≠ []) :
+    s.all notSep = true ∧ firstNotSpace s = true ∧ lastNotSpace s = true ∧ matchFrame s = none := by
+  simp only [WFsrc, hne, decide_false, Bool.false_or, Bool.and_eq_true, Option.isNone_iff_eq_none] at h
+  obtain ⟨⟨⟨h1, h2⟩, h3⟩, h4⟩ := h
+  exact ⟨h1, h2, h3, h4⟩
+
+theorem strip_ind4 {s : Str} (h1 : firstNotSpace s = true) (h2 : lastNotSpace s = true) : strip (ind4 ++ s) = s := by
+  have : ind4 ++ s = ' ' :: ' ' :: ' ' :: ' ' :: s := rfl
+  rw [this]
+  unfold strip
+  rw [lstrip_space_cons, lstrip_space_cons, lstrip_space_cons, lstrip_space_cons, lstrip_of_first h1, rstrip_of_last h2]
+
+theorem takeSource_src {s : Str} {L : List Str} (h : WFsrc s = true) (hne : s ≠ []) :
+    takeSource matchFrame ((ind4 ++ s) :: L) = (s, L) := by
+  obtain ⟨_, h2, h3, h4⟩ := WFsrc_parts h hne
+  unfold takeSource
+  simp only [strip_ind4 h2 h3, h4]
+  have : startsWithSpace (ind4 ++ s) = true := rfl
+  simp [this]
+
+/-- one rendered frame (with or without source line, with or without marker line) followed by a stop line -/
+theorem parseLoop_frame {f : Frame} {a : Option Str} {nl : Str} {L : List Str}
+    (hf : WFframe f = true) (ha : WFanchor a = true) (hs : StopLine nl) :
+    parseLoop matchFrame (frameLinesA (f, a) ++ nl :: L) =
+      (f :: (parseLoop matchFrame (nl :: L)).1, (parseLoop matchFrame (nl :: L)).2) := by
+  obtain ⟨_, _, _, _, _, _, _, h8⟩ := WFframe_parts hf
+  unfold frameLinesA
+  by_cases hsrc : f.src = []
+  · simp only [hsrc, ↓reduceIte, List.cons_append, List.nil_append]
+    rw [parseLoop_cons_some (matchFrame_frameLine hf), takeSource_stop hs, skipUnderline_stop hs]
+    have : ({ file := f.file, lineno := f.lineno, func := f.func, src := ([] : Str) } : Frame) = f := by
+      cases f; simp_all
+    simp [this]
+  · simp only [hsrc, ↓reduceIte]
+    have hfr : ({ file := f.file, lineno := f.lineno, func := f.func, src := f.src } : Frame) = f := by cases f; rfl
+    cases a with
+    | none =>
+      simp only [List.cons_append, List.nil_append]
+      rw [parseLoop_cons_some (matchFrame_frameLine hf), takeSource_src h8 hsrc, skipUnderline_stop hs]
+    | some u =>
+      simp only [List.cons_append, List.nil_append]
+      rw [parseLoop_cons_some (matchFrame_frameLine hf), takeSource_src h8 hsrc]
+      have hu : isUnderline u = true := ha
+      simp [skipUnderline, hu, hfr]
+
+theorem frameLinesA_head (fa : Frame × Option Str) : ∃ r, frameLinesA fa = frameLine fa.1 :: r := by
+  unfold frameLinesA
+  split
+  · exact ⟨_, rfl⟩
+  · split <;> exact ⟨_, rfl⟩
+
+/-- all rendered frames followed by the exception lines: the loop returns exactly the frames and leaves the
+    exception lines -/
+theorem parseLoop_frames (fas : List (Frame × Option Str)) {e1 : Str} {E : List Str}
+    (hall : ∀ fa ∈ fas, WFframe fa.1 = true ∧ WFanchor fa.2 = true) (he : ExcHead e1) :
+    parseLoop matchFrame (fas.flatMap frameLinesA ++ e1 :: E) = (fas.map (·.1), e1 :: E) := by
+  induction fas with
+  | nil => simpa using parseLoop_cons_none he.noFrame
+  | cons fa rest ih =>
+    have ih := ih (fun x hx => hall x (by simp [hx]))
+    have hfa := hall fa (by simp)
+    have hstop : ∃ nl L, rest.flatMap frameLinesA ++ e1 :: E = nl :: L ∧ StopLine nl := by
+      cases rest with
+      | nil => exact ⟨e1, E, by simp, StopLine.of_excHead he⟩
+      | cons fb rest' =>
+        obtain ⟨r, hr⟩ := frameLinesA_head fb
+        refine ⟨frameLine fb.1, r ++ (rest'.flatMap frameLinesA ++ e1 :: E), ?_, stopLine_frameLine (hall fb (by simp)).1⟩
+        simp [hr]
+    obtain ⟨nl, L, hL, hs⟩ := hstop
+    rw [List.flatMap_cons, List.append_assoc, hL]
+    have := parseLoop_frame (f := fa.1) (a := fa.2) (L := L) hfa.1 hfa.2 hs
+    rw [this, ← hL, ih]
+    simp
+
+/-! ## from_string on a rendered text -/
+
+theorem all_notSep_append {a b : Str} (ha : a.all notSep = true) (hb : b.all notSep = true) :
+    (a ++ b).all notSep = true := by simp [ha, hb]
+
+theorem frameLine_notSep {f : Frame} (h : WFframe f = true) : (frameLine f).all notSep = true := by
+  obtain ⟨_, h2, _, h4, h5, _, _, _⟩ := WFframe_parts h
+  have hd : f.lineno.all notSep = true := by
+    rw [List.all_eq_true] at h4 ⊢
+    intro c hc; exact notSep_of_isDigit (h4 c hc)
+  unfold frameLine
+  have e1 : ind2.all notSep = true := by decide
+  have e2 : litA.all notSep = true := by decide
+  have e3 : litB.all notSep = true := by decide
+  have e4 : litC.all notSep = true := by decide
+  simp [e1, e2, e3, e4, h2, hd, h5]
+
+theorem frameLinesA_notSep {fa : Frame × Option Str} (hf : WFframe fa.1 = true) (ha : WFanchor fa.2 = true) :
+    ∀ l ∈ frameLinesA fa, l.all notSep = true := by
+  obtain ⟨_, _, _, _, _, _, _, h8⟩ := WFframe_parts hf
+  have hfl := frameLine_notSep hf
+  unfold frameLinesA
+  by_cases hsrc : fa.1.src = []
+  · simp only [hsrc, ↓reduceIte]
+    intro l hl; simp at hl; subst hl; exact hfl
+  · obtain ⟨hs, _, _, _⟩ := WFsrc_parts h8 hsrc
+    have e1 : ind4.all notSep = true := by decide
+    have hsl : (ind4 ++ fa.1.src).all notSep = true := all_notSep_append e1 hs
+    simp only [hsrc, ↓reduceIte]
+    cases ha2 : fa.2 with
+    | none => intro l hl; simp at hl; rcases hl with rfl | rfl <;> assumption
+    | some u =>
+      have hu : isUnderline u = true := by rw [ha2] at ha; exact ha
+      have hul : u.all notSep = true := by
+        unfold isUnderline at hu
+        rw [List.all_eq_true] at hu ⊢
+        intro c hc; exact notSep_of_underline (hu c hc)
+      intro l hl; simp at hl; rcases hl with rfl | rfl | rfl <;> assumption
+
+theorem WFexc_parts {etype msg : Str} (h : WFexc etype msg = true) :
+    etype ≠ [] ∧ etype.all notSpace = true ∧ etype.any (fun c => !isUnderlineChar c) = true ∧
+    msg.all msgCharOK = true ∧ msg.getLast? ≠ some '\n' ∧ isTrailer (lastLine (excLine etype msg)) = false := by
+  simp only [WFexc, Bool.and_eq_true, bne_iff_ne, ne_eq, Bool.not_eq_true'] at h
+  obtain ⟨⟨⟨⟨⟨h1, h2⟩, h3⟩, h4⟩, h5⟩, h6⟩ := h
+  exact ⟨h1, h2, h3, h4, h5, h6⟩
+
+theorem excLine_msgCharOK {etype msg : Str} (h1 : etype.all notSpace = true) (h2 : msg.all msgCharOK = true) :
+    (excLine etype msg).all msgCharOK = true := by
+  have he : etype.all msgCharOK = true := by
+    rw [List.all_eq_true] at h1 ⊢
+    intro c hc
+    simp [msgCharOK, notSep_of_notSpace (h1 c hc)]
+  unfold excLine
+  split
+  · exact he
+  · have : colonSp.all msgCharOK = true := by decide
+    simp [he, this, h2]
+
+theorem excLine_last {etype msg : Str} (h0 : etype ≠ []) (h1 : etype.all notSpace = true)
+    (h2 : msg.getLast? ≠ some '\n') : excLine etype msg ≠ [] ∧ (excLine etype msg).getLast? ≠ some '\n' := by
+  have het : etype.getLast? ≠ some '\n' := by
+    intro h
+    have hm : '\n' ∈ etype := List.mem_of_getLast? h
+    have := List.all_eq_true.mp h1 _ hm
+    simp [notSpace, isSpace_nl] at this
+  unfold excLine
+  split
+  · exact ⟨h0, het⟩
+  · rename_i hm
+    refine ⟨by simp [h0], ?_⟩
+    rw [← List.append_assoc, List.getLast?_append]
+    cases hg : msg.getLast? with
+    | none => simp at hg; exact absurd hg hm
+    | some c => rw [hg] at h2; simpa using h2
+
+/-- the lines `tb_str.lstrip().splitlines()` of a rendered text, and what from_string makes of them -/
+theorem fromLinesF_rendered (fas : List (Frame × Option Str)) (etype msg : Str)
+    (h : WFtextA fas etype msg = true) :
+    fromLinesF (header :: (fas.flatMap frameLinesA ++ splitNL (excLine etype msg))) =
+      .ok (.tb, ⟨fas.map (·.1), etype, msg⟩) := by
+  simp only [WFtextA, Bool.and_eq_true, List.all_eq_true] at h
+  obtain ⟨hfas, hexc⟩ := h
+  obtain ⟨h1, h2, h3, h4, h5, h6⟩ := WFexc_parts hexc
+  obtain ⟨e1, E, hsplit, hhead⟩ := excHead_excLine (msg := msg) h1 h2 h3
+  obtain ⟨hne, hlast⟩ := excLine_last (msg := msg) h1 h2 h5
+  obtain ⟨last, hl1, hl2⟩ := splitNL_getLast_ne_nil hne hlast
+  have hLS : (header :: (fas.flatMap frameLinesA ++ splitNL (excLine etype msg))).getLast? = some last := by
+    rw [List.getLast?_cons, List.getLast?_append, hl1]; rfl
+  have htr : isTrailer last = false := by
+    unfold lastLine at h6; rw [hl1] at h6; exact h6
+  unfold fromLinesF
+  rw [dropTrailers_of_last hLS htr]
+  have hh : strip header = header := strip_of_first_last (by rfl) (by rfl)
+  simp only [hh, ↓reduceIte]
+  rw [hsplit, parseLoop_frames fas (fun fa hfa => by simpa using hfas fa hfa) hhead, ← hsplit,
+    excParts_excLine h2]
+
+theorem rendered_lines_notSep (fas : List (Frame × Option Str)) (etype msg : Str)
+    (h : WFtextA fas etype msg = true) :
+    ∀ l ∈ header :: (fas.flatMap frameLinesA ++ splitNL (excLine etype msg)), l.all notSep = true := by
+  simp only [WFtextA, Bool.and_eq_true, List.all_eq_true] at h
+  obtain ⟨hfas, hexc⟩ := h
+  obtain ⟨_, h2, _, h4, _, _⟩ := WFexc_parts hexc
+  intro l hl
+  simp only [List.mem_cons, List.mem_append, List.mem_flatMap] at hl
+  rcases hl with rfl | ⟨fa, hfa, hl⟩ | hl
+  · decide
+  · have := hfas fa hfa
+    exact frameLinesA_notSep (by simpa using this.1) (by simpa using this.2) l hl
+  · exact splitNL_lines_notSep (excLine_msgCharOK h2 h4) l hl
+
+theorem toStringA_eq (fas : List (Frame × Option Str)) (etype msg : Str) :
+    toStringA fas etype msg = joinNL (header :: (fas.flatMap frameLinesA ++ splitNL (excLine etype msg))) := by
+  unfold toStringA toLinesA
+  have := joinNL_append_splitNL (header :: fas.flatMap frameLinesA) (excLine etype msg)
+  simpa using this.symm
+
+theorem toStringA_first (fas : List (Frame × Option Str)) (etype msg : Str) :
+    firstNotSpace (toStringA fas etype msg) = true := by
+  unfold toStringA toLinesA
+  rw [joinNL_cons_of_ne (by simp)]
+  exact firstNotSpace_append (by rfl)
+
+theorem fromStringF_rendered (fas : List (Frame × Option Str)) (etype msg : Str)
+    (h : WFtextA fas etype msg = true) :
+    fromStringF (toStringA fas etype msg) = .ok (.tb, ⟨fas.map (·.1), etype, msg⟩) := by
+  unfold fromStringF
+  rw [lstrip_of_first (toStringA_first fas etype msg), toStringA_eq]
+  have hw := h
+  simp only [WFtextA, Bool.and_eq_true, List.all_eq_true] at hw
+  obtain ⟨_, hexc⟩ := hw
+  obtain ⟨h1, h2, _, _, h5, _⟩ := WFexc_parts hexc
+  obtain ⟨hne, hlast⟩ := excLine_last (msg := msg) h1 h2 h5
+  obtain ⟨last, hl1, hl2⟩ := splitNL_getLast_ne_nil hne hlast
+  have hLS : (header :: (fas.flatMap frameLinesA ++ splitNL (excLine etype msg))).getLast? = some last := by
+    rw [List.getLast?_cons, List.getLast?_append, hl1]; rfl
+  rw [splitlines_joinNL (rendered_lines_notSep fas etype msg h) hLS hl2]
+  exact fromLinesF_rendered fas etype msg h
+
+theorem fromStringF_rendered_nl (fas : List (Frame × Option Str)) (etype msg : Str)
+    (h : WFtextA fas etype msg = true) :
+    fromStringF (toStringA fas etype msg ++ ['\n']) = .ok (.tb, ⟨fas.map (·.1), etype, msg⟩) := by
+  unfold fromStringF
+  rw [lstrip_of_first (firstNotSpace_append (toStringA_first fas etype msg)), toStringA_eq]
+  rw [splitlines_joinNL_nl (rendered_lines_notSep fas etype msg h) (by simp)]
+  exact fromLinesF_rendered fas etype msg h
+
+/-! ## clause 2: strip algebra and the traceback layout -/
+
+theorem rstrip_nil : rstrip [] = [] := rfl
+
+theorem rstrip_cons (c : Char) (cs : Str) :
+    rstrip (c :: cs) = if rstrip cs = [] then (if isSpace c then [] else [c]) else c :: rstrip cs := by
+  unfold rstrip
+  rw [List.reverse_cons]
+  by_cases h : cs.reverse.dropWhile isSpace = []
+  · rw [dropWhile_append_all (all_of_dropWhile_nil h)]
+    simp only [h, List.reverse_nil, ↓reduceIte]
+    by_cases hc : isSpace c = true
+    · simp [List.dropWhile, hc]
+    · simp [List.dropWhile, hc]
+  · rw [dropWhile_append_stop h]
+    simp [h]
+
+theorem lstrip_cons (c : Char) (cs : Str) : lstrip (c :: cs) = if isSpace c then lstrip cs else c :: cs := by
+  simp [lstrip, List.dropWhile]
+  split <;> simp_all
+
+theorem lstrip_nil_of_rstrip_nil {s : Str} (h : rstrip s = []) : lstrip s = [] := by
+  induction s with
+  | nil => rfl
+  | cons c cs ih =>
+    rw [rstrip_cons] at h
+    split at h
+    · rename_i hcs
+      split at h
+      · rename_i hc; rw [lstrip_cons]; simp [hc, ih hcs]
+      · simp at h
+    · simp at h
+
+/-- stripping left and right commute -/
+theorem rstrip_lstrip_comm (s : Str) : rstrip (lstrip s) = lstrip (rstrip s) := by
+  induction s with
+  | nil => rfl
+  | cons c cs ih =>
+    by_cases hc : isSpace c = true
+    · rw [lstrip_cons]; simp only [hc, ↓reduceIte]
+      rw [rstrip_cons]
+      by_cases hr : rstrip cs = []
+      · simp only [hr, ↓reduceIte, hc]
+        rw [lstrip_nil_of_rstrip_nil hr]; rfl
+      · simp only [hr, ↓reduceIte]
+        rw [lstrip_cons]; simp only [hc, ↓reduceIte]
+        exact ih
+    · have hcf : isSpace c = false := by simpa using hc
+      rw [lstrip_cons]; simp only [hcf, Bool.false_eq_true, ↓reduceIte]
+      rw [rstrip_cons]
+      split
+      · simp [hcf, lstrip_cons]
+      · simp [hcf, lstrip_cons]
+
+theorem dropWhile_head_not {p : Char → Bool} {l cs : Str} {c : Char} (h : l.dropWhile p = c :: cs) : p c = false := by
+  induction l with
+  | nil => simp at h
+  | cons d ds ih =>
+    rw [List.dropWhile_cons] at h
+    split at h
+    · exact ih h
+    · rename_i hd
+      simp only [List.cons.injEq] at h
+      rw [← h.1]; simpa using hd
+
+theorem rstrip_last_or_nil (s : Str) : rstrip s = [] ∨ lastNotSpace (rstrip s) = true := by
+  unfold rstrip lastNotSpace
+  rw [List.reverse_reverse]
+  cases h : s.reverse.dropWhile isSpace with
+  | nil => left; rfl
+  | cons c cs =>
+    right
+    have := dropWhile_head_not h
+    simp [firstNotSpace, notSpace, this]
+
+theorem lstrip_first_or_nil (s : Str) : lstrip s = [] ∨ firstNotSpace (lstrip s) = true := by
+  unfold lstrip
+  cases h : s.dropWhile isSpace with
+  | nil => left; rfl
+  | cons c cs =>
+    right
+    have := dropWhile_head_not h
+    simp [firstNotSpace, notSpace, this]
+
+theorem rstrip_idem (s : Str) : rstrip (rstrip s) = rstrip s := by
+  rcases rstrip_last_or_nil s with h | h
+  · rw [h]; rfl
+  · exact rstrip_of_last h
+
+theorem strip_idem (s : Str) : strip (strip s) = strip s := by
+  have h1 : strip s = [] ∨ lastNotSpace (strip s) = true := rstrip_last_or_nil _
+  have h2 : strip s = [] ∨ firstNotSpace (strip s) = true := by
+    unfold strip; rw [rstrip_lstrip_comm]; exact lstrip_first_or_nil _
+  rcases h1 with h1 | h1
+  · rw [h1]; rfl
+  · rcases h2 with h2 | h2
+    · rw [h2]; rfl
+    · exact strip_of_first_last h2 h1
+
+theorem strip_rstrip (s : Str) : strip (rstrip s) = strip s := by
+  unfold strip
+  rw [rstrip_lstrip_comm, rstrip_idem, ← rstrip_lstrip_comm]
+
+theorem rstrip_nil_iff_strip_nil (s : Str) : rstrip s = [] ↔ strip s = [] := by
+  unfold strip
+  rw [rstrip_lstrip_comm]
+  constructor
+  · intro h; rw [h]; rfl
+  · intro h
+    rcases rstrip_last_or_nil s with h' | h'
+    · exact h'
+    · -- a non-empty rstrip ends in a non-space, so its lstrip is non-empty
+      exfalso
+      have hall : (rstrip s).all isSpace = true := all_of_dropWhile_nil h
+      unfold lastNotSpace at h'
+      cases hr : (rstrip s).reverse with
+      | nil => rw [hr] at h'; simp [firstNotSpace] at h'
+      | cons c cs =>
+        rw [hr] at h'
+        have hm : c ∈ rstrip s := by rw [← List.mem_reverse, hr]; simp
+        have := List.all_eq_true.mp hall c hm
+        simp [firstNotSpace, notSpace, this] at h'
+
+/-- Callpoint.tb_frame_str prints what the traceback module prints for one entry -/
+theorem tbFrameStr_eq_std (c : Callpoint) : tbFrameStr c = stdFrameStr c := by
+  unfold tbFrameStr stdFrameStr
+  by_cases h : rstrip c.line = []
+  · have := (rstrip_nil_iff_strip_nil c.line).mp h
+    simp [h, this]
+  · have : strip c.line ≠ [] := fun h' => h ((rstrip_nil_iff_strip_nil c.line).mpr h')
+    simp [h, this, strip_rstrip, strip_idem]
+
+theorem stdLoop_noLongRun (last : Option Callpoint) (count : Nat) (fs : List Callpoint)
+    (hc : count ≤ 3) (h : noLongRunFrom last count fs = true) :
+    stdLoop last count fs = fs.flatMap stdFrameStr := by
+  induction fs generalizing last count with
+  | nil => simp [stdLoop, flushRepeat]; omega
+  | cons f fs ih =>
+    have hfl : flushRepeat count = [] := by simp [flushRepeat]; omega
+    cases last with
+    | none =>
+      simp only [noLongRunFrom, ↓reduceIte] at h
+      simp only [stdLoop, ↓reduceIte]
+      rw [hfl, ih (some f) 1 (by omega) h]
+      simp
+    | some l =>
+      by_cases hs : sameSite l f = true
+      · simp only [noLongRunFrom, hs, Bool.not_true, Bool.false_eq_true, ↓reduceIte, Bool.and_eq_true,
+          decide_eq_true_eq] at h
+        have : ¬ (count + 1 > 3) := by omega
+        simp only [stdLoop, hs, Bool.not_true, Bool.false_eq_true, ↓reduceIte, this]
+        rw [ih (some l) (count + 1) h.1 h.2]
+        simp
+      · have hs' : sameSite l f = false := by simpa using hs
+        simp only [noLongRunFrom, hs', Bool.not_false, ↓reduceIte] at h
+        simp only [stdLoop, hs', Bool.not_false, ↓reduceIte]
+        rw [hfl, ih (some f) 1 (by omega) h]
+        simp
+
 end C16
